@@ -25,7 +25,7 @@ type c15 struct{ base }
 
 func init() {
 	core.Register(c15{base{id: "C15", race: true, level: "exploration", quickB: 16, thoroughB: 32,
-		rule: "groups of 2-24 client sessions (different users; typed result tables in text and binary via simple and extended protocol; extended histories over the same statement/portal names; binary COPY-in; failing queries; oversized messages; on half of the groups a server-registered custom type; short-lived CancelRequest / SSLRequest / truncated-startup / empty connections before and during the sessions) (some steps prepare statements over a query text shared by all connections of the group, declared through wire.ParseParameters, with per-connection prespecified parameter types) are first served one at a time on a fresh server (solo reference; repeated in reverse order on another fresh server - the two solo runs must agree) and then all at once on another fresh server, 3 (quick) / 5 (thorough) times with different yield-injection seeds at every transport Read/Write; every connection's per-step reply bytes and callback trace must equal its solo run (ParameterStatus compared as a multiset); the binary runs under the Go race detector and any report with a library frame is a violation. Non-trivial = group whose global event order interleaves at least two connections; distinct = hash of the global (connection, event-kind) order observed.",
+		rule:        "groups of 2-24 client sessions (different users; typed result tables in text and binary via simple and extended protocol; extended histories over the same statement/portal names; binary COPY-in; failing queries; oversized messages; on half of the groups a server-registered custom type; short-lived CancelRequest / SSLRequest / truncated-startup / empty connections before and during the sessions) (some steps prepare statements over a query text shared by all connections of the group, declared through wire.ParseParameters, with per-connection prespecified parameter types) are first served one at a time on a fresh server (solo reference; repeated in reverse order on another fresh server - the two solo runs must agree) and then all at once on another fresh server, 3 (quick) / 5 (thorough) times with different yield-injection seeds at every transport Read/Write; every connection's per-step reply bytes and callback trace must equal its solo run (ParameterStatus compared as a multiset); the binary runs under the Go race detector and any report with a library frame is a violation. Non-trivial = group whose global event order interleaves at least two connections; distinct = hash of the global (connection, event-kind) order observed.",
 		need:        []string{"groups", "concurrent_sessions", "steps_compared", "distinct_interleavings", "race_detector_active_batches", "custom_type_rows", "copy_sessions", "solo_order_comparisons"},
 		assumptions: append([]string{"handler programs are deterministic functions of the query text, so a connection's solo transcript is the reference for its concurrent transcript"}, commonAssumptions...)}})
 }
@@ -33,10 +33,11 @@ func init() {
 const c15customOID = 99001
 
 type c15session struct {
-	User  string
-	Progs map[string]*hs.Prog
-	Steps [][]byte
-	Kinds []string
+	User   string
+	Params [][2]string // further start-up parameters, as real drivers send them
+	Progs  map[string]*hs.Prog
+	Steps  [][]byte
+	Kinds  []string
 }
 
 func c15gen(rng *core.Rng, tag string, custom bool) c15session {
@@ -187,6 +188,14 @@ func c15genShared(rng *core.Rng, tag string, custom bool, group string) c15sessi
 			s.Kinds = append(s.Kinds, "oversize")
 		}
 	}
+	// start-up parameters real drivers send (run-time settings included), in any number
+	pool := [][2]string{{"database", "db_" + tag}, {"application_name", core.Pick(rng, []string{"psql", "pgx", tag})}, {"client_encoding", "UTF8"},
+		{"DateStyle", "ISO, MDY"}, {"TimeZone", core.Pick(rng, []string{"UTC", "Europe/Amsterdam"})}, {"statement_timeout", core.Pick(rng, []string{"0", "1", "250", "60000"})},
+		{"lock_timeout", "100"}, {"idle_in_transaction_session_timeout", "5"}, {"search_path", "public"}, {"options", "-c geqo=off"},
+		{"extra_float_digits", core.Pick(rng, []string{"2", "3"})}, {"replication", "false"}}
+	for n := rng.Intn(5); n > 0; n-- {
+		s.Params = append(s.Params, pool[rng.Intn(len(pool))])
+	}
 	return s
 }
 
@@ -205,7 +214,7 @@ func c15run(env *hs.Env, s c15session, yield func()) (r c15result, cl *hs.Client
 	conn.Yield = yield
 	env.L.DialConn(conn)
 	cl = hs.NewClient(conn)
-	msgs, err := cl.Startup(s.User)
+	msgs, err := cl.Startup(s.User, s.Params...)
 	if err != nil {
 		r.Err = "startup: " + err.Error()
 		return
